@@ -1,9 +1,10 @@
 """C01 — no address or prefix is ever held by two subscribers at once."""
 import verif as V
+import locks
 import poolrace
 
 PROP = "C01"
-SPEC = ["Bng.Spec.C01", "Bng.Spec.C01Epoch", "Bng.Spec.C01FreeList", "Bng.Spec.C01Nexus", "Bng.Spec.C01Cluster", "Bng.Spec.C16PppoeWhole", "Bng.Spec.C01V6Construct"]
+SPEC = ["Bng.Spec.C01", "Bng.Spec.C01Epoch", "Bng.Spec.C01FreeList", "Bng.Spec.C01Nexus", "Bng.Spec.C01Cluster", "Bng.Spec.C16PppoeWhole", "Bng.Spec.C01V6Construct"] + ["Bng.Spec.C05Locks"]
 # monitors of the pool specification that belong to C01 (C05 owns count/exhaustion/lost/total)
 MON = ["unique", "idempotent", "range", "agree"]
 # epoch (lease) allocator: Bng.LeaseSpec adds expiry/reclaimed to the pool monitor
@@ -50,14 +51,15 @@ ASSUME = [
     "subscriber ids are non-empty strings; net.ParseCIDR masks the base address",
     "bitmap: geometries with fewer than 2^64 units (the 2^80-unit geometry is listed as a known finding of C05)",
 ]
+ASSUME = ASSUME + [locks.ASSUME]
 
 # concurrent callers of pool.LocalPool: burst-heavy sequences on harnesses built with -race (lib/poolrace.py)
 RACE = poolrace.make(PROP, MON)
 
 
 def run(tier, seed):
-    return V.standard_check(PROP, SPEC, COMPS, LEVEL, ASSUME, tier, seed, post=RACE)
+    return V.standard_check(PROP, SPEC, COMPS, LEVEL, ASSUME, tier, seed, pre=locks.with_locks(), post=RACE)
 
 
 def replay(path):
-    return V.replay(PROP, COMPS, path, SPEC)
+    return V.replay(PROP, COMPS, path, SPEC, pre=locks.with_locks())
